@@ -171,6 +171,11 @@ func SecretData(o *Obj) map[string][]byte {
 		d["tls.crt"] = c.CrtPEM
 		d["tls.key"] = c.KeyPEM
 		d["ca.crt"] = PoolCA(c.CA).CrtPEM
+	case "tlschain":
+		// what an ACME server returns and the signer stores: the leaf followed by its issuer
+		c := PoolCert(o.Cert)
+		d["tls.crt"] = append(append([]byte{}, c.CrtPEM...), PoolCA(c.CA).CrtPEM...)
+		d["tls.key"] = c.KeyPEM
 	case "ca":
 		d["ca.crt"] = PoolCA(o.Cert).CrtPEM
 	case "auth":
